@@ -7,7 +7,7 @@ from props.c07 import mprime
 
 RULE = ("message lengths 0, 1, 33, 94 and every length that makes tr||M' straddle one or two SHAKE-256 blocks (32- and 64-byte tr, with/without "
         "context and OID); keys from seeds; deterministic, hedged (ML-DSA, scripted 32-byte rnd) and randomized (Dilithium, scripted 64-byte rho'') modes; "
-        "the API wrappers with contexts and both pre-hashes; crafted secret keys (t0 at +-2^12, found with the independent Python signer) that force "
+        "the API wrappers with contexts and both pre-hashes; over-long dirty caller buffers; the MakeHint corner cases as kernel dependency; crafted secret keys (t0 at +-2^12, found with the independent Python signer) that force "
         "the c*t0 and hint-count rejections; a committed corpus of (crafted key, message) pairs whose signing needs 37..165 rejections, so that the "
         "ExpandMask counter L*kappa+i passes 255 (second counter byte), and of pairs for the gamma2=(q-1)/88 sets in which one attempt is rejected ONLY "
         "by ||c*t0|| >= gamma2; model = crate byte for byte on a subset chosen to need few attempts, crate = independent Python "
@@ -65,6 +65,18 @@ def gen(tier, rng):
             out.append(Case("signature", cp, [bytes([0xA5] * p.sig), m, sk, 0, b""], ["in_domain", "deterministic", "attempts-%d" % min(len(tr) + 1, 9)], aux=("core", m, None)))
         for m, tr in easy[nm:]:
             out.append(Case("signature", cp, [zero, m, sk, 0, b""], ["in_domain", "deterministic", "crate-only"], aux=("core", m, None)))
+        # caller buffers longer than SIGNBYTES with old content (the slice API asks for 'at least' SIGNBYTES): same signature in the
+        # first SIGNBYTES bytes, the rest untouched
+        for k, extra_len in enumerate((1, 64, p.sig)):
+            m0, tr0 = easy[k % len(easy)]
+            buf = bytes(rng.randrange(256) for _ in range(p.sig + extra_len))
+            out.append(Case("signature", cp, [buf, m0, sk, 0, b""], ["in_domain", "deterministic", "over-long-buffer"] + ([] if k == 0 and len(tr0) < 4 else ["crate-only"]),
+                            aux=("core", m0, None)))
+        # kernel dependency: MakeHint at the corner the signer reaches about once per q coefficients (low part exactly -gamma2 with
+        # high part 0 -> no hint; with high part != 0 -> hint), and around +-gamma2
+        from dlib import LEVEL_OF
+        for a0, a1, exp in ((-p.g2, 0, 0), (-p.g2, 1, 1), (-p.g2, p.m - 1, 1), (-p.g2 - 1, 0, 1), (-p.g2 + 1, 3, 0), (p.g2, 0, 0), (p.g2, 5, 0), (p.g2 + 1, 0, 1), (0, 0, 0)):
+            out.append(Case("make_hint", LEVEL_OF[cp], [a0, a1], ["in_domain", "kernel-dependency"], aux=("makehint", exp, None)))
         # scripted randomness
         tape = bytes(rng.randrange(256) for _ in range(70))
         m = bytes(rng.randrange(256) for _ in range(50))
@@ -118,6 +130,13 @@ def gen(tier, rng):
         m, csk = bytes.fromhex(e["msg"]), bytes.fromhex(e["sk"])
         out.append(Case("signature", e["set"], [bytes(Par(e["set"]).sig), m, csk, 0, b""],
                         ["in_domain", "crafted-key", "long-chain", "counter-above-255", "corpus", "crate-only"], aux=("core", m, None)))
+    # rejection chains of more than 1000 attempts (beyond any 'reasonable' iteration cap, e.g. the 814 of FIPS 204 appendix C):
+    # the expected signature is stored with the entry (quick tier); the thorough tier recomputes it with the reference
+    for e in corpus("c05_very_long_chains.json"):
+        m, csk = bytes.fromhex(e["msg"]), bytes.fromhex(e["sk"])
+        out.append(Case("signature", e["set"], [bytes(Par(e["set"]).sig), m, csk, 0, b""],
+                        ["in_domain", "crafted-key", "very-long-chain", "corpus", "crate-only"],
+                        aux=("stored" if tier == "quick" else "core", m, bytes.fromhex(e["sig"]) if tier == "quick" else None)))
     return out
 
 
@@ -136,10 +155,17 @@ def oracle(c, outs):
             cp = k
     p = Par(cp)
     kind, m, tape = c.aux
+    if kind == "makehint":
+        return None if outs[0] == m else "make_hint(%s, %s) = %d, the specification's MakeHint condition gives %d" % (c.args[0], c.args[1], outs[0], m)
     if c.fn == "signature":
         sk = bytes.fromhex(c.args[2][1:]); sig, rest = outs
+        buf0 = bytes.fromhex(c.args[0][1:])
+        if len(buf0) > p.sig:
+            if len(sig) != len(buf0) or sig[p.sig:] != buf0[p.sig:]:
+                return "signature/%s wrote beyond SIGNBYTES of an over-long caller buffer (or changed its length)" % c.copy
+            sig = sig[:p.sig]
         rand = int(c.args[3])
-        if rand:
+        if rand and kind != "stored":
             need = 32 if p.mldsa else 64
             if rest != len(tape) - need:
                 return "randomized signing consumed %d random bytes, expected %d" % (len(tape) - rest, need)
@@ -154,8 +180,10 @@ def oracle(c, outs):
             sig = outs[1]
             if tape is not None and outs[2] != len(tape) - 32:
                 return "hedged signing consumed %d random bytes" % (len(tape) - outs[2])
-    if tape is None:
-        exp = pyref.sign(p, sk, m)
+    if kind == "stored":
+        exp = tape
+    elif tape is None:
+        exp = pyref.sign(p, sk, m, max_attempts=8000)
     elif p.mldsa:
         exp = pyref.sign(p, sk, m, rnd=tape[:32])
     else:
